@@ -40,6 +40,9 @@ func dn(d digest.Digest) string {
 			return fmt.Sprintf("D%d", i)
 		}
 	}
+	if d.Validate() != nil {
+		return fmt.Sprintf("%q", string(d)) // e.g. the empty digest of a lookup that failed
+	}
 	return d.Encoded()[:6]
 }
 
